@@ -542,10 +542,15 @@ def synthesize(update_working_block=True, merge_io_vectors=True, block=None):
                             new_name += '[' + str(i) + ']'
                         new_wirevector = wirevector.__class__(name=new_name, bitwidth=1)
                         block_out.io_map[orig_io_map[wirevector]].append(new_wirevector)
+                elif isinstance(wirevector, Register):
+                    reset_bit = wirevector.reset_value
+                    if reset_bit is not None:
+                        reset_bit = (reset_bit >> i) & 0x1
+                    new_wirevector = wirevector.__class__(
+                        name=new_name, bitwidth=1, reset_value=reset_bit)
+                    block_out.reg_map[orig_reg_map[wirevector]].append(new_wirevector)
                 else:
                     new_wirevector = wirevector.__class__(name=new_name, bitwidth=1)
-                    if isinstance(wirevector, Register):
-                        block_out.reg_map[orig_reg_map[wirevector]].append(new_wirevector)
                 wirevector_map[(wirevector, i)] = new_wirevector
 
         # Now connect up the inputs and outputs to maintain the interface
